@@ -4,8 +4,9 @@
 //! observable with the outcome predicted by the reference semantics (WasmSem.tla).
 use crate::util::*;
 use concordium_wasm::{
-    artifact::{Artifact, ArtifactNamedImport, CompiledFunction},
-    machine::{ExecutionOutcome, Host, NoInterrupt, RunResult, RuntimeStack, Value},
+    artifact::{Artifact, ArtifactNamedImport, CompiledFunction, OwnedArtifact, RunnableCode},
+    machine::{ExecutionOutcome, Host, RunResult, RuntimeStack, Value},
+    output::Output,
     CostConfigurationV0, CostConfigurationV1,
     types::{FunctionType, Name},
     utils,
@@ -23,7 +24,7 @@ impl ValidateImportExport for AllowAll {
 }
 
 pub const MAX_DEPTH: u32 = 64;
-pub const TICK_LIMIT: u64 = 50_000_000;
+pub const TICK_LIMIT: u64 = 3_000_000;
 
 #[derive(Default)]
 pub struct TestHost {
@@ -40,17 +41,28 @@ pub struct TestHost {
     /// energy budget; ticking beyond it fails with out-of-energy
     pub budget:        Option<u64>,
     pub out_of_energy: bool,
+    /// indices (in order of occurrence) of the scripted host calls that interrupt the execution
+    /// instead of answering inline (C13)
+    pub interrupt_at:  Vec<usize>,
+    pub interrupts:    u64,
+}
+
+/// An interrupt raised by a scripted host call: the value with which the execution must be resumed.
+#[derive(Debug, Clone, Copy)]
+pub struct Pending {
+    pub result: Option<i64>,
+    pub is_i64: bool,
 }
 
 impl Host<ArtifactNamedImport> for TestHost {
-    type Interrupt = NoInterrupt;
+    type Interrupt = Pending;
 
     fn tick_initial_memory(&mut self, num_pages: u32) -> RunResult<()> {
         self.init_pages = Some(num_pages);
         Ok(())
     }
 
-    fn call(&mut self, f: &ArtifactNamedImport, _memory: &mut [u8], stack: &mut RuntimeStack) -> RunResult<Option<NoInterrupt>> {
+    fn call(&mut self, f: &ArtifactNamedImport, _memory: &mut [u8], stack: &mut RuntimeStack) -> RunResult<Option<Pending>> {
         if f.matches("concordium_metering", "account_memory") {
             let n = unsafe { stack.peek_u32() };
             self.account_mem.push(n);
@@ -68,8 +80,15 @@ impl Host<ArtifactNamedImport> for TestHost {
             }
         }
         args.reverse();
-        self.events.push((2, self.host_calls.len() as u64));
+        let call_idx = self.host_calls.len();
+        self.events.push((2, call_idx as u64));
         self.host_calls.push((f.get_item_name().to_string(), args));
+        if self.interrupt_at.contains(&call_idx) {
+            // answer later: the machine is suspended and resumed with the same value
+            self.interrupts += 1;
+            let result = ty.result.map(|_| if self.host_results.is_empty() { 0 } else { self.host_results.remove(0) });
+            return Ok(Some(Pending { result, is_i64: matches!(ty.result, Some(concordium_wasm::types::ValueType::I64)) }));
+        }
         if let Some(r) = ty.result {
             let v = if self.host_results.is_empty() { 0 } else { self.host_results.remove(0) };
             match r {
@@ -132,8 +151,11 @@ pub fn value_to_limbs(v: Value) -> J {
     }
 }
 
+/// Metered configurations come first: they always terminate (tick limit of the harness host).  The
+/// unmetered ones are run only for programs on which the metered runs agreed with the reference, so
+/// that a defect which makes a terminating program loop is reported instead of hanging the harness.
 pub const CONFIGS: [(&str, bool, u8); 6] =
-    [("V1/none", true, 0), ("V1/costV0", true, 1), ("V1/costV1", true, 2), ("V0/none", false, 0), ("V0/costV0", false, 1), ("V0/costV1", false, 2)];
+    [("V1/costV0", true, 1), ("V1/costV1", true, 2), ("V0/costV0", false, 1), ("V0/costV1", false, 2), ("V1/none", true, 0), ("V0/none", false, 0)];
 
 pub fn build(wasm: &[u8], v1: bool, metering: u8) -> anyhow::Result<Artifact<ArtifactNamedImport, CompiledFunction>> {
     let vc = if v1 { ValidationConfig::V1 } else { ValidationConfig::V0 };
@@ -154,26 +176,76 @@ pub struct Observed {
     pub host:   TestHost,
 }
 
-pub fn execute(art: &Artifact<ArtifactNamedImport, CompiledFunction>, entry: &str, args: &[Value], host_results: Vec<i64>) -> Observed {
+pub fn execute<R: RunnableCode>(art: &Artifact<ArtifactNamedImport, R>, entry: &str, args: &[Value], host_results: Vec<i64>) -> Observed {
     execute_budget(art, entry, args, host_results, None)
 }
 
-pub fn execute_budget(
-    art: &Artifact<ArtifactNamedImport, CompiledFunction>,
+pub fn execute_budget<R: RunnableCode>(
+    art: &Artifact<ArtifactNamedImport, R>,
     entry: &str,
     args: &[Value],
     host_results: Vec<i64>,
     budget: Option<u64>,
 ) -> Observed {
-    let mut host = TestHost { host_results, budget, ..Default::default() };
+    execute_sched(art, entry, args, host_results, budget, vec![])
+}
+
+/// Execute; the scripted host calls whose index is in `interrupt_at` suspend the machine, which is
+/// then resumed with the value the call would have returned inline.
+pub fn execute_sched<R: RunnableCode>(
+    art: &Artifact<ArtifactNamedImport, R>,
+    entry: &str,
+    args: &[Value],
+    host_results: Vec<i64>,
+    budget: Option<u64>,
+    interrupt_at: Vec<usize>,
+) -> Observed {
+    let mut host = TestHost { host_results, budget, interrupt_at, ..Default::default() };
     concordium_wasm::machine::verif::reset_steps();
-    match art.run(&mut host, entry, args) {
-        Ok(ExecutionOutcome::Success { result, memory }) => {
-            Observed { steps: concordium_wasm::machine::verif::steps(), status: "done", res: result, memory, err: String::new(), host }
+    let mut outcome = art.run(&mut host, entry, args);
+    loop {
+        match outcome {
+            Ok(ExecutionOutcome::Success { result, memory }) => {
+                return Observed { steps: concordium_wasm::machine::verif::steps(), status: "done", res: result, memory, err: String::new(), host };
+            }
+            Ok(ExecutionOutcome::Interrupted { reason, mut config }) => {
+                if let Some(v) = reason.result {
+                    if reason.is_i64 {
+                        config.push_value(v);
+                    } else {
+                        config.push_value(v as i32);
+                    }
+                }
+                outcome = art.run_config(&mut host, config);
+            }
+            Err(e) => {
+                return Observed { steps: concordium_wasm::machine::verif::steps(), status: "trap", res: None, memory: vec![], err: format!("{:#}", e), host };
+            }
         }
-        Ok(ExecutionOutcome::Interrupted { reason, .. }) => match reason {},
-        Err(e) => Observed { steps: concordium_wasm::machine::verif::steps(), status: "trap", res: None, memory: vec![], err: format!("{:#}", e), host },
     }
+}
+
+/// Equality of everything observable about two executions (C13).
+pub fn same_observation(a: &Observed, b: &Observed) -> Option<String> {
+    if a.status != b.status {
+        return Some(format!("status {} vs {}", a.status, b.status));
+    }
+    if a.res != b.res {
+        return Some(format!("result {:?} vs {:?}", a.res, b.res));
+    }
+    if a.memory != b.memory {
+        return Some(format!("memory: {}", first_diff(&a.memory, &b.memory)));
+    }
+    if a.host.ticks != b.host.ticks {
+        return Some(format!("energy ticks {:?} vs {:?}", a.host.ticked, b.host.ticked));
+    }
+    if a.host.account_mem != b.host.account_mem {
+        return Some("account_memory announcements".into());
+    }
+    if a.host.host_calls != b.host.host_calls {
+        return Some(format!("host calls {:?} vs {:?}", a.host.host_calls, b.host.host_calls));
+    }
+    None
 }
 
 fn expected_memory(out: &J) -> Vec<u8> {
@@ -259,6 +331,10 @@ pub fn main(args: &[String]) -> i32 {
     let mut metered_runs = 0u64;
     let mut budget_runs = 0u64;
     let skip_budgets_all = args.iter().any(|a| a == "--nobudget");
+    let check_artifact = args.iter().any(|a| a == "--artifact");
+    let check_interrupts = args.iter().any(|a| a == "--interrupts");
+    let mut artifact_runs = 0u64;
+    let mut interrupt_runs = 0u64;
     let budget_every: usize = args.iter().position(|a| a == "--budget-every").and_then(|i| args.get(i + 1)).and_then(|x| x.parse().ok()).unwrap_or(1);
     std::panic::set_hook(Box::new(|_| {}));
     for (n, line) in lines.iter().enumerate() {
@@ -275,11 +351,18 @@ pub fn main(args: &[String]) -> i32 {
         };
         let entry = p["entry"].as_str().unwrap_or("main").to_string();
         let signext = p["signext"].as_bool().unwrap_or(false);
+        // "valid": true / false = verdict predicted by the spec; null = no verdict (mutated bytes): either answer is fine
+        let verdict_known = !p["valid"].is_null() || p.get("valid").is_none();
         let expect_valid = p["valid"].as_bool().unwrap_or(true);
         let code_len: u64 = p["code_len"].as_u64().unwrap_or(64);
+        let ref_fuel: u64 = p["ref_fuel"].as_u64().unwrap_or(0);
+        let body_len: u64 = p["body_len"].as_u64().unwrap_or(0);
         let skip_budgets = skip_budgets_all || n % budget_every != 0;
         let mut failures: Vec<J> = Vec::new();
         'cfgs: for (cname, v1, metering) in CONFIGS.iter() {
+            if *metering == 0 && failures.iter().any(|f| f["known"].as_array().map(|k| k.is_empty()).unwrap_or(true)) {
+                break 'cfgs;
+            }
             let should_build = expect_valid && (*v1 || !signext);
             let built = std::panic::catch_unwind(|| build(&wasm, *v1, *metering));
             let art = match built {
@@ -288,7 +371,7 @@ pub fn main(args: &[String]) -> i32 {
                     break 'cfgs;
                 }
                 Ok(Err(e)) => {
-                    if should_build {
+                    if should_build && verdict_known {
                         failures.push(json!({"config": cname, "what": "module predicted valid by the spec was rejected", "got": format!("{:#}", e), "known": []}));
                         break 'cfgs;
                     }
@@ -296,13 +379,51 @@ pub fn main(args: &[String]) -> i32 {
                     continue;
                 }
                 Ok(Ok(a)) => {
-                    if !should_build {
+                    if !should_build && verdict_known {
                         failures.push(json!({"config": cname, "what": "module predicted invalid by the spec was accepted", "known": []}));
                         break 'cfgs;
                     }
                     a
                 }
             };
+            // C13: serialise, load zero-copy, convert to owned, serialise again
+            let mut art_bytes: Vec<u8> = Vec::new();
+            let mut borrowed = None;
+            let mut owned: Option<OwnedArtifact<ArtifactNamedImport>> = None;
+            if check_artifact {
+                let r = std::panic::catch_unwind(std::panic::AssertUnwindSafe(|| -> Result<(), String> {
+                    art.output(&mut art_bytes).map_err(|e| format!("output: {:#}", e))?;
+                    Ok(())
+                }));
+                match r {
+                    Ok(Ok(())) => {}
+                    Ok(Err(e)) => failures.push(json!({"config": cname, "what": format!("artifact serialisation failed: {}", e), "known": []})),
+                    Err(pn) => failures.push(json!({"config": cname, "what": format!("panic in artifact serialisation: {}", panic_message(pn)), "known": []})),
+                }
+            }
+            if check_artifact && !art_bytes.is_empty() {
+                match utils::parse_artifact::<ArtifactNamedImport>(&art_bytes) {
+                    Err(e) => failures.push(json!({"config": cname, "what": format!("stored artifact cannot be loaded: {:#}", e), "known": []})),
+                    Ok(b) => {
+                        let mut again = Vec::new();
+                        if b.output(&mut again).is_err() || again != art_bytes {
+                            failures.push(json!({"config": cname, "what": "re-serialising the loaded artifact is not byte-identical", "known": []}));
+                        }
+                        match utils::parse_artifact::<ArtifactNamedImport>(&art_bytes) {
+                            Ok(b2) => {
+                                let o: OwnedArtifact<ArtifactNamedImport> = b2.into();
+                                let mut again2 = Vec::new();
+                                if o.output(&mut again2).is_err() || again2 != art_bytes {
+                                    failures.push(json!({"config": cname, "what": "re-serialising the owned artifact is not byte-identical", "known": []}));
+                                }
+                                owned = Some(o);
+                            }
+                            Err(_) => {}
+                        }
+                        borrowed = Some(b);
+                    }
+                }
+            }
             for (ri, run) in p["runs"].as_array().cloned().unwrap_or_default().iter().enumerate() {
                 if failures.len() >= 4 {
                     break 'cfgs;
@@ -316,19 +437,47 @@ pub fn main(args: &[String]) -> i32 {
                     failures.push(json!({"config": cname, "run": ri, "step": ri, "args": run["args"], "what": what, "exp": exp, "got": got,
                                          "exp_trapk": run["out"]["trapk"], "err": err, "known": known, "hz": hz}));
                 };
+                if exp_status == "any" || exp_status == "any-metered" {
+                    // no oracle for the outcome (mutated or limit-vector module): it must run safely, and stop under a budget
+                    if *metering == 0 && exp_status == "any-metered" {
+                        continue;
+                    }
+                    let budget = if *metering == 0 { None } else { Some(2_000_000u64) };
+                    let argv: Vec<Value> = match art.export.get(entry.as_str()) {
+                        Some(_) => argv.clone(),
+                        None => continue,
+                    };
+                    let obs = std::panic::catch_unwind(std::panic::AssertUnwindSafe(|| execute_budget(&art, &entry, &argv, hostq.clone(), budget)));
+                    runs += 1;
+                    match obs {
+                        Err(pn) => fail(format!("panic during execution: {}", panic_message(pn)), J::Null, J::Null, vec![], ""),
+                        Ok(obs) => {
+                            *stats.entry(format!("any:{}", obs.status)).or_default() += 1;
+                        }
+                    }
+                    continue;
+                }
                 if exp_status == "fuel" {
                     // the reference did not finish within its step bound: with metering and a finite budget the
                     // engine must stop, within a number of interpreter steps linear in the budget
                     if *metering == 0 {
                         continue;
                     }
-                    for budget in [0u64, 1, 1000, 100_000] {
+                    let base = p[if *metering == 1 { "base_w0" } else { "base_w1" }].as_u64().unwrap_or(0);
+                    for budget in [0u64, 1, base + 20, 1000, 100_000] {
                         let obs = std::panic::catch_unwind(std::panic::AssertUnwindSafe(|| execute_budget(&art, &entry, &argv, hostq.clone(), Some(budget))));
                         runs += 1;
                         match obs {
                             Err(pn) => fail(format!("panic during execution: {}", panic_message(pn)), J::Null, J::Null, vec![], ""),
                             Ok(obs) => {
                                 *stats.entry(format!("fuel:{}", if obs.host.out_of_energy { "out-of-energy" } else { obs.status })).or_default() += 1;
+                                // the reference is still running after `ref_fuel` steps; every loop iteration and every call costs
+                                // at least 2 and executes at most `body_len` instructions of the generated function, so with a
+                                // budget of 20 above the fixed cost of the template (`base`) the engine cannot legitimately have finished
+                                if base > 0 && budget == base + 20 && obs.status == "done" && body_len > 0 && ref_fuel >= 2 * (body_len * 10 + 60) {
+                                    fail(format!("the engine finished within an energy budget of {} a run that the reference has not finished after {} steps", budget, ref_fuel),
+                                         json!("out of energy"), json!(["done", obs.host.ticked]), hazard_known.clone(), "");
+                                }
                                 if obs.steps > 4 * code_len * (obs.host.ticked + 1) + 16 {
                                     fail("interpreter steps not bounded by a linear function of the energy consumed".into(),
                                          json!({"bound": 4 * code_len * (obs.host.ticked + 1) + 16}), json!({"steps": obs.steps, "ticked": obs.host.ticked}), hazard_known.clone(), &obs.err);
@@ -365,6 +514,47 @@ pub fn main(args: &[String]) -> i32 {
                     }
                     fail(what, exp, got, known, &obs.err);
                     continue;
+                }
+                if check_artifact {
+                    // C13: the stored artifact, loaded zero-copy and converted to owned, behaves identically
+                    if let (Some(borrowed), Some(owned)) = (borrowed.as_ref(), owned.as_ref()) {
+                        let o1 = execute(borrowed, &entry, &argv, hostq.clone());
+                        let o2 = execute(owned, &entry, &argv, hostq.clone());
+                        runs += 2;
+                        artifact_runs += 2;
+                        if let Some(d) = same_observation(&obs, &o1) {
+                            fail(format!("artifact loaded zero-copy from its serialisation behaves differently: {}", d), J::Null, J::Null, vec![], &o1.err);
+                        }
+                        if let Some(d) = same_observation(&obs, &o2) {
+                            fail(format!("artifact loaded and converted to owned behaves differently: {}", d), J::Null, J::Null, vec![], &o2.err);
+                        }
+                    }
+                }
+                if check_interrupts && !obs.host.host_calls.is_empty() {
+                    // C13: every subset of the host calls (up to 4 sites, then sampled) interrupts; resumed runs must match the inline run
+                    let k = obs.host.host_calls.len().min(12);
+                    let nsub: u64 = if k <= 4 { 1 << k } else { 16 };
+                    for si in 1..nsub {
+                        let mask: u64 = if k <= 4 { si } else { si.wrapping_mul(0x9E37_79B9_7F4A_7C15) >> (64 - k) };
+                        let sched: Vec<usize> = (0..k).filter(|i| mask >> i & 1 == 1).collect();
+                        if sched.is_empty() {
+                            continue;
+                        }
+                        let o = std::panic::catch_unwind(std::panic::AssertUnwindSafe(|| execute_sched(&art, &entry, &argv, hostq.clone(), None, sched.clone())));
+                        runs += 1;
+                        interrupt_runs += 1;
+                        match o {
+                            Err(pn) => fail(format!("panic during interrupted execution {:?}: {}", sched, panic_message(pn)), J::Null, J::Null, vec![], ""),
+                            Ok(o) => {
+                                if let Some(d) = same_observation(&obs, &o) {
+                                    fail(format!("execution interrupted at host calls {:?} and resumed differs from the uninterrupted one: {}", sched, d), J::Null, json!(sched), hazard_known.clone(), &o.err);
+                                }
+                                if o.host.interrupts == 0 {
+                                    fail("no interrupt happened although one was scheduled".into(), J::Null, json!(sched), vec![], "");
+                                }
+                            }
+                        }
+                    }
                 }
                 if *metering > 0 {
                     metered_runs += 1;
@@ -409,7 +599,7 @@ pub fn main(args: &[String]) -> i32 {
         }
     }
     out.push_str(&json!({"summary": true, "behaviours": lines.len(), "runs": runs, "bad": bad, "by_action": stats,
-        "metered_runs": metered_runs, "budget_runs": budget_runs, "max_steps_per_energy_and_instruction": max_ratio}).to_string());
+        "metered_runs": metered_runs, "budget_runs": budget_runs, "artifact_runs": artifact_runs, "interrupt_runs": interrupt_runs, "max_steps_per_energy_and_instruction": max_ratio}).to_string());
     out.push('\n');
     if std::fs::write(&args[1], out).is_err() {
         return 2;
